@@ -1223,3 +1223,24 @@ twin("c12-twin-newest-entry-with-a-default", "C12",
 fault("c11-failure-kept-in-the-except-name", "C11", "R11i",
       (DIR, "            except Exception:\n                # Truncated or corrupt cache file: regenerate the listing.\n                return False\n",
        "            except Exception as error:\n                pass\n            if error is not None:\n                return False\n"))
+
+# ======================================================================= round n
+fault("c15-zero-size-dropped-from-views", "C15", "R15l",
+      (GP, "            if entry.getsize() is not None:\n", "            if entry.getsize():\n"))
+fault("c06-typeless-entry-breaks-the-html-row", "C06", "R06p",
+      (HTTP, "        if entry.gettype() != \"i\" and entry.gettype() != \"7\":\n            retstr += '<A HREF=\"%s\">' % url\n", "        if entry.gettype() not in \"i7\":\n            retstr += '<A HREF=\"%s\">' % url\n"))
+fault("c18-empty-attribute-value-minimised", "C18", "R18h",
+      (TALPY, "\t\t\tif (attValue is None):\n\t\t\t\tif (att == self.tal_namespace_omittag):", "\t\t\tif (not attValue):\n\t\t\t\tif (att == self.tal_namespace_omittag):"))
+fault("c10-double-slash-selector-accepted", "C10", "R10f",
+      (BASE, "            and (self.selector.find(\"//\") == -1)\n", "            and (self.selector.find(\"//\", 1) == -1)\n"))
+fault("c19-switch-read-without-getboolean", "C19", "R19f",
+      (INIT, "    if config.getboolean(\"pygopherd\", \"usechroot\"):\n", "    if config.get(\"pygopherd\", \"usechroot\") in (\"yes\", \"true\", \"on\", \"1\"):\n"))
+fault("c13-data-as-replacement-template", "C13", "R13g",
+      (HTTP, "            ).replace(\"GOPHERURL\", gopherurl)\n", "            )\n            retstr = re.sub(\"GOPHERURL\", gopherurl, retstr)\n"))
+twin("c13-twin-data-through-str-replace", "C13",
+     (HTTP, "            ).replace(\"GOPHERURL\", gopherurl)\n", "            ).replace(\"GOPHERURL\", gopherurl, 1).replace(\"GOPHERURL\", gopherurl)\n"))
+fault("c11-cache-opened-outside-the-guard", "C11", "R11a",
+      (DIR, "            try:\n                with self.vfs.open(self.cachename, \"rb\") as fp:\n                    self.fileentries = pickle.load(fp)\n", "            fp = self.vfs.open(self.cachename, \"rb\")\n            try:\n                with fp:\n                    self.fileentries = pickle.load(fp)\n"))
+fault("c20-selector-in-the-log-format", "C20", "R20j",
+      (GEXC, "        \"%s [%s/%s] EXCEPTION %s: %s\"\n        % (ipaddr, protostr, handlerstr, exceptionclass, str(exception))\n",
+       "        (\"%s [%s/%s] EXCEPTION %s: %s (serving \" + (protocol.selector if protocol else \"\") + \")\")\n        % (ipaddr, protostr, handlerstr, exceptionclass, str(exception))\n"))
